@@ -127,7 +127,7 @@ PARTS = {"sim": {"check": check_case, "strategy": cases, "budget": {"quick": 150
 
 
 def vacuity(merged, tier):
-    for cls, lim in (("halt", 0.2), ("two_halts", 0.03), ("accepted_during_halt", 0.1), ("cut_by_session", 0.03)):
+    for cls, lim in (("halt", 0.08), ("two_halts", 0.012), ("accepted_during_halt", 0.04), ("cut_by_session", 0.012)):
         if frac(merged, "sim", cls) < lim:
             return f"class {cls} below {lim:.0%} of runs"
     return None
